@@ -53,7 +53,15 @@ def _cases(draw, nmax):
         # positions on an integer lattice scaled by 3 A: distinct lattice points are >= 3 A apart
         pts = draw(st.lists(st.tuples(st.integers(-3, 3), st.integers(-3, 3), st.integers(-3, 3)),
                             min_size=n, max_size=n, unique=True))
-        geom = {"pos": [[3.0 * p[0], 3.0 * p[1], 3.0 * p[2] + 0.5 * (i % 2)] for i, p in enumerate(pts)],
+        # positions are given the way users give them: integer lists, float lists or a mixture
+        as_int = draw(st.sampled_from(["float", "int", "mixed"]))
+        pos = []
+        for i, p in enumerate(pts):
+            if as_int == "int" or (as_int == "mixed" and i % 2 == 0):
+                pos.append([3 * p[0], 3 * p[1], 3 * p[2]])
+            else:
+                pos.append([3.0 * p[0], 3.0 * p[1], 3.0 * p[2] + 0.5 * (i % 2)])
+        geom = {"pos": pos,
                 "epsr": draw(st.sampled_from([1.0, 1.5, 2.0, 3.0])),
                 "u_read": draw(st.sampled_from(UNITS))}
     return {"N": n, "E": E, "J": J, "d": d, "mult": mult, "perm": list(perm),
@@ -73,7 +81,7 @@ def build_aggregate(qr, E, J, d, mult, u_in, u_build, pos=None):
             m = qr.Molecule([0.0, float(orc.convert(E[i], "1/cm", u_in))])
             m.set_dipole(0, 1, list(d[i]))
             if pos is not None:
-                m.position = numpy.array(pos[i], dtype=float)
+                m.position = pos[i]
             mols.append(m)
         agg = qr.Aggregate(molecules=mols)
         for i in range(n):
